@@ -304,7 +304,7 @@ func (cn *c16conn) close() (quiesce.Outcome, []quiesce.G) {
 // server's per-connection buffers change hands between a reply's last byte and
 // that reply's clean-up. Race detector on; the replies must stay intact.
 func c16Renegotiate(c *ev.Ctx) {
-	rounds := c.Sz(6, 120)
+	rounds := c.Sz(10, 120)
 	for round := 0; round < rounds; round++ {
 		if !c.Mine(round) {
 			continue
@@ -398,7 +398,7 @@ func runC16(c *ev.Ctx) {
 	}
 	r := c.Rand("c16")
 	shapes := []struct{ G, K int }{{2, 1}, {2, 2}, {4, 1}, {4, 4}, {16, 2}, {16, 8}, {64, 4}, {64, 8}, {4, 2}, {16, 1}}
-	rounds := c.Sz(8, 80)
+	rounds := c.Sz(16, 80)
 	idx := 0
 	for round := 0; round < rounds; round++ {
 		for si, sh := range shapes {
